@@ -2,6 +2,7 @@ package sim
 
 import (
 	"fmt"
+	"strings"
 
 	rc "github.com/hugelgupf/p9/zzverif/refcodec"
 	"github.com/hugelgupf/p9/zzverif/simfs"
@@ -40,6 +41,72 @@ func c08Tree(fs *simfs.FS) {
 	fs.MkPath("/c")
 }
 
+// Bounded-exhaustive part: from a fixed state in which fids 1..7 are bound to
+// /a, /a/a, /a/a/a, /a/b, /b, /b/a, /c, every sequence of c08Depth requests
+// over this alphabet of renames, unlinks, removes, creations and walks.
+var c08Alphabet = func() []func() rc.Message {
+	var out []func() rc.Message
+	add := func(f func() rc.Message) { out = append(out, f) }
+	for _, f := range []uint32{2, 3, 4, 6} {
+		for _, d := range []uint32{0, 1, 5} {
+			for _, n := range []string{"a", "b"} {
+				f, d, n := f, d, n
+				add(func() rc.Message { return &rc.Trename{Fid: f, Dfid: d, Name: n} })
+			}
+		}
+	}
+	for _, od := range []uint32{0, 1, 5} {
+		for _, on := range []string{"a", "b"} {
+			for _, nd := range []uint32{0, 1, 5} {
+				for _, nn := range []string{"a", "c"} {
+					od, on, nd, nn := od, on, nd, nn
+					add(func() rc.Message { return &rc.Trenameat{OldDirFid: od, OldName: on, NewDirFid: nd, NewName: nn} })
+				}
+			}
+		}
+	}
+	for _, d := range []uint32{0, 1, 2, 5} {
+		for _, n := range []string{"a", "b"} {
+			d, n := d, n
+			add(func() rc.Message { return &rc.Tunlinkat{DirFid: d, Name: n} })
+		}
+	}
+	for _, f := range []uint32{2, 3, 4, 6, 7} {
+		f := f
+		add(func() rc.Message { return &rc.Tremove{Fid: f} })
+	}
+	for _, d := range []uint32{0, 1, 5} {
+		for _, n := range []string{"a", "c"} {
+			d, n := d, n
+			add(func() rc.Message { return &rc.Tmkdir{Dfid: d, Name: n, Mode: 0o755} })
+		}
+	}
+	for _, f := range []uint32{0, 1, 2, 5} {
+		f := f
+		add(func() rc.Message { return &rc.Twalk{Fid: f, NewFid: 8, Names: []string{"a"}} })
+	}
+	add(func() rc.Message { return &rc.Twalk{Fid: 3, NewFid: 8} })
+	add(func() rc.Message { return &rc.Tlcreate{Fid: 8, Name: "b", Flags: 2, Mode: 0o644} })
+	return out
+}()
+
+func c08Depth(tier string) int {
+	if tier == "thorough" {
+		return 3
+	}
+	return 2
+}
+
+func c08SweepSize(tier string) int {
+	n := 1
+	for i := 0; i < c08Depth(tier); i++ {
+		n *= len(c08Alphabet)
+	}
+	return n
+}
+
+var c08Prebound = []string{"", "a", "a/a", "a/a/a", "a/b", "b", "b/a", "c"}
+
 func runC08(rcx *RunCtx) {
 	cfg := simCfg(rcx)
 	p := rcx.Plan
@@ -48,6 +115,17 @@ func runC08(rcx *RunCtx) {
 	wga := p.Choose(2) == 1
 	ver := 7 - p.Choose(8)
 	rcx.Label = fmt.Sprintf("conns=%d", nconn)
+	var sweepOps []rc.Message
+	sweep := rcx.Index < c08SweepSize(rcx.Tier)
+	if sweep {
+		k := rcx.Index
+		for d := 0; d < c08Depth(rcx.Tier); d++ {
+			sweepOps = append(sweepOps, c08Alphabet[k%len(c08Alphabet)]())
+			k /= len(c08Alphabet)
+		}
+		nconn, nops = 1, len(sweepOps)
+		rcx.Label = "sweep"
+	}
 	var trace []string
 	renames, unlinks, fencedProbes := 0, 0, 0
 	rcx.Res = simrt.Run(cfg, rcx.Sched, func() {
@@ -100,6 +178,18 @@ func runC08(rcx *RunCtx) {
 			step(cc, &rc.Tversion{Msize: 8192, Version: versionStr(ver)})
 			step(cc, &rc.Tattach{Fid: 0, Afid: rc.NoFid, Uname: "u", Aname: "", NUname: rc.NoUID})
 		}
+		if sweep {
+			for fid := 1; fid < len(c08Prebound); fid++ {
+				var ns []string
+				for _, n := range strings.Split(c08Prebound[fid], "/") {
+					ns = append(ns, n)
+				}
+				if rep := step(conns[0], &rc.Twalk{Fid: 0, NewFid: uint32(fid), Names: ns}); rep == nil || Errno(rep) != 0 {
+					find("setup", "setup", "could not bind fid %d to /%s", fid, c08Prebound[fid])
+					return
+				}
+			}
+		}
 		ch := simrt.Choose
 		name := func() string { return c08Names[ch(len(c08Names))] }
 		for op := 0; op < nops && len(rcx.Findings) == 0; op++ {
@@ -112,7 +202,19 @@ func runC08(rcx *RunCtx) {
 				return uint32(ch(8))
 			}
 			var m rc.Message
-			switch ch(14) {
+			sel := -1
+			if sweep {
+				m = sweepOps[op]
+				switch m.(type) {
+				case *rc.Trename, *rc.Trenameat:
+					renames++
+				case *rc.Tunlinkat, *rc.Tremove:
+					unlinks++
+				}
+			} else {
+				sel = ch(14)
+			}
+			switch sel {
 			case 0, 1, 2:
 				var ns []string
 				for k := 1 + ch(3); k > 0; k-- {
@@ -238,8 +340,9 @@ func init() {
 		ID:   "C08",
 		Desc: "path coherence under rename/unlink, fencing of deleted paths (identity model + path-based backend)",
 		Run:  runC08,
-		Quick: 96000, Thorough: 4500000, QuickSecs: 60, ThorSecs: 1500,
-		Rule:  "random histories of 8-68 requests (walk 1-3 components, clone, mkdir, create, rename, renameat incl. over existing targets and whole subtrees, unlinkat, remove, clunk, open/write) on 1-2 lock-step connections with up to 8 fids each on the same and nested paths of a depth-3 tree over names {a,b,c}. After EVERY request: (1) every live handle of the path-based backend resolves to the object it was bound to; (2) Tgetattr through every unfenced fid on every connection reports the bound inode; (3) fenced fids answer a child walk as the session model prescribes; (4) a successful rename put the inode where the request said; all replies also checked against the C04 session model (fencing errnos, no backend call). Non-trivial = the history contains a rename or unlink.",
+		Directed: func(tier string) int { return c08SweepSize(tier) },
+		Quick:    96000, Thorough: 4500000, QuickSecs: 60, ThorSecs: 1500,
+		Rule: fmt.Sprintf("sweep: from a state with fids bound to /a, /a/a, /a/a/a, /a/b, /b, /b/a, /c, ALL sequences of depth 2 (quick) / 3 (thorough) over an alphabet of %d requests (24 Trename, 36 Trenameat incl. over existing targets and of whole subtrees, 8 Tunlinkat, 5 Tremove, 6 Tmkdir re-creating names, walks, clone, create); ", len(c08Alphabet)) + "random: random histories of 8-68 requests (walk 1-3 components, clone, mkdir, create, rename, renameat incl. over existing targets and whole subtrees, unlinkat, remove, clunk, open/write) on 1-2 lock-step connections with up to 8 fids each on the same and nested paths of a depth-3 tree over names {a,b,c}. After EVERY request: (1) every live handle of the path-based backend resolves to the object it was bound to; (2) Tgetattr through every unfenced fid on every connection reports the bound inode; (3) fenced fids answer a child walk as the session model prescribes; (4) a successful rename put the inode where the request said; all replies also checked against the C04 session model (fencing errnos, no backend call). Non-trivial = the history contains a rename or unlink.",
 		Assume: []string{"object identity = backend inode number; fenced = the backend's own record that the directory entry the handle named was removed or overwritten"},
 		Real:   []string{"p9.Server", "p9 path tree / fid table / handlers", "p9 wire codec"},
 		Stub:   []string{"transport (simnet pipes)", "backend tree (simfs, path-based handles)", "raw 9P peer (refcodec)"},
